@@ -299,6 +299,17 @@ ILL_FORMED = [
     ('const string[] gss = ["a", "b"]; string g1 = gss[0];', 'write(g1);'),
     ('bool gflag = not false; int gq = gflag is int;', 'write(gq);'),
 ]
+# constant index into constant data at and around the length (the compiler may fold it, reject it with a diagnostic or
+# leave it to the run-time check - but it must not fall over)
+for _src, _n in (('"abc"', 3), ('""', 0), ('cs', 2), ('gs', 4), ('[1, 2, 3]', 3), ("['a', 'b']", 2), ('gt', 2), ('[true, false]', 2), ('lt', 3)):
+    for _i in (-1, _n - 1, _n, _n + 1, 255, 256, 65536, -65536):
+        ILL_FORMED.append(('const string gs = "wxyz"; const int[] gt = [7, 8];',
+                           'const string cs = "ab"; const byte[] lt = [1, 2, 3]; write(%s[%s] is int); write(%s[(%s)] is bool);' % (
+                               _src, _i if _i >= 0 else '(%d)' % _i, _src, _i)))
+for _g in ('string g0 = "abc"; byte g1 = g0[3];', 'const string g0 = "abc"; byte g1 = g0[3];', 'const string g0 = "abc"; byte g1 = g0[2];',
+           'const int[] g0 = [1, 2]; int g1 = g0[2];', 'const int[] g0 = [1, 2]; int g1 = g0[1]; int g2[g1];', 'const int g0 = 3; int g1 = 7 / (g0 - 3);',
+           'const int g0 = 3; int g1[g0 - 4];', 'const string g0 = ""; int g1 = g0.length; byte g2 = g0[g1];'):
+    ILL_FORMED.append((_g, 'write(g1);'))
 ENTRY_VARIANTS = ['empty @is_you(%s)', 'int @is_you(%s)', 'empty is_you(%s)', 'empty @is_you(bool b)', 'empty @is_you(string[] a)',
                   'empty @is_you(const int[] a, int[] b)', 'empty @is_you(bool[] a)', 'empty !is_you(%s)']
 
@@ -503,6 +514,18 @@ def run_shard(desc, seed, tier):
                 params = head[len(marker):head.rfind(')')]
                 head = (entry % params if '%s' in entry else entry) + ' '
             return src[:i] + g + '\n' + head + '{\n' + stmt + '\n' + src[j + 1:]
+        if k == 0:
+            # every targeted entry once on a minimal host program, two option sets
+            for g, stmt in ILL_FORMED:
+                src = g + '\nempty @is_you() {\n' + stmt + '\n}\n'
+                for o in ((16, 500, False, False, 50), (24, 300, True, False, 50)):
+                    try:
+                        m = chk((src, o))
+                    except Discard as d:
+                        stats.discard(d.why)
+                        continue
+                    if m:
+                        stats.violation(dict(to_case((src, o), m[1]), signature=m[0] + ':targeted'))
         strat = st.tuples(st.tuples(programs(features=SEQ_FEATURES, size=dict(main_stmts=4, funcs=2)), st.integers(0, 1000),
                                     st.one_of(st.none(), st.none(), st.sampled_from(ENTRY_VARIANTS)), st.integers(0, 3)).map(build),
                           opt_strategy())
